@@ -118,6 +118,8 @@ fn shared_block() -> &'static Shared {
 }
 
 struct Explorer<'a> {
+    /// progress word shared with the watching parent (MAP_SHARED, so forked children can bump it too)
+    progress: usize,
     calls: Vec<(usize, usize)>,
     rules: Vec<Value>,
     datas: Vec<Value>,
@@ -148,7 +150,10 @@ impl<'a> Explorer<'a> {
 
     /// Runs in a forked child: perform call `c` after `history`, compare, recurse.
     fn visit(&self, history: &mut Vec<usize>, c: usize) {
-        self.shared.states.fetch_add(1, Ordering::Relaxed);
+        let n = self.shared.states.fetch_add(1, Ordering::Relaxed);
+        if self.progress != 0 && n % 256 == 0 {
+            unsafe { std::ptr::write_volatile(self.progress as *mut u64, (1u64 << 50) + n) };
+        }
         self.shared.transitions.fetch_add(1, Ordering::Relaxed);
         self.shared.leaves.fetch_add(1, Ordering::Relaxed);
         let (o, intact) = self.run_call(c);
@@ -265,8 +270,12 @@ pub fn run(ctx: &mut Ctx) {
             ctx.judge("history:isolated", &rules[ri], &datas[di], &isolated[i], &exp, &tr, true);
         }
     }
-    let max_depth = if ctx.tier_thorough { 3 } else { 2 };
-    let ex = Explorer { calls: calls.clone(), rules, datas, isolated, shared, vio_path: vio_path.clone(), max_depth };
+    // all histories of depth 2 over the whole alphabet; in the thorough tier additionally all histories
+    // of depth 3 over the core alphabet (the first 40 rules x the first 3 data)
+    let max_depth = 2;
+    let core_rules = 40.min(rules.len());
+    let core: Vec<usize> = calls.iter().enumerate().filter(|(_, (ri, di))| *ri < core_rules && *di < 3).map(|(i, _)| i).collect();
+    let mut ex = Explorer { progress: ctx.progress_addr(), calls: calls.clone(), rules, datas, isolated, shared, vio_path: vio_path.clone(), max_depth };
     let mut history = Vec::new();
     for c in 0..calls.len() {
         if !ctx.mine() {
@@ -275,6 +284,21 @@ pub fn run(ctx: &mut Ctx) {
         ctx.tick_external(&json!({"history_first_call": c}));
         ex.fork_visit(&mut history, c);
     }
+    if ctx.tier_thorough {
+        // restrict the alphabet to the core calls and go one level deeper
+        let core_calls: Vec<(usize, usize)> = core.iter().map(|&i| calls[i]).collect();
+        let core_iso: Vec<Obs> = core.iter().map(|&i| ex.isolated[i].clone()).collect();
+        ex.calls = core_calls;
+        ex.isolated = core_iso;
+        ex.max_depth = 3;
+        for c in 0..ex.calls.len() {
+            if !ctx.mine() {
+                continue;
+            }
+            ctx.tick_external(&json!({"history_first_call_core": c}));
+            ex.fork_visit(&mut history, c);
+        }
+    }
     ctx.states += shared.states.load(Ordering::Relaxed);
     ctx.transitions += shared.transitions.load(Ordering::Relaxed);
     ctx.leaves += shared.leaves.load(Ordering::Relaxed);
@@ -282,7 +306,8 @@ pub fn run(ctx: &mut Ctx) {
     *ctx.subspaces.entry("history:call-after-history".into()).or_insert(0) += shared.leaves.load(Ordering::Relaxed);
     add_extra(ctx, "history_snapshots", shared.states.load(Ordering::Relaxed));
     add_extra(ctx, "history_fork_failures", shared.fork_failures.load(Ordering::Relaxed));
-    ctx.extra.insert("history_max_depth".into(), json!(max_depth));
+    ctx.extra.insert("history_max_depth".into(), json!(if ctx.tier_thorough { 3 } else { 2 }));
+    ctx.extra.insert("history_core_alphabet_calls_depth3".into(), json!(core.len()));
     ctx.extra.insert("history_alphabet_calls".into(), json!(calls.len()));
     if shared.fork_failures.load(Ordering::Relaxed) > 0 {
         ctx.fail("history:machinery", json!({"fork_failures": shared.fork_failures.load(Ordering::Relaxed)}), "every snapshot child exits normally".into(), "PANIC-like: a snapshot child died or fork failed".into(), None);
